@@ -16,6 +16,7 @@ import (
 	"sort"
 	"strconv"
 	"strings"
+	"sync"
 	"testing"
 )
 
@@ -208,14 +209,28 @@ type Result struct {
 	AssumeFailed bool              `json:"assume_failed"`
 	Panic        string            `json:"panic,omitempty"`
 	Stack        string            `json:"stack,omitempty"`
+	Deadlock     bool              `json:"deadlock,omitempty"`
+	SchedDesync  bool              `json:"sched_desync,omitempty"`
 }
 
 // Run executes one harness natively.
 func Run(h func(), vals map[string]uint64, rnd *rand.Rand) (res Result) {
+	return RunSched(h, vals, rnd, nil, 3)
+}
+
+// RunSched is Run with a recorded schedule (thread ids chosen at the
+// scheduling decisions) for harnesses that start goroutines.
+func RunSched(h func(), vals map[string]uint64, rnd *rand.Rand, schedule []int, maxPreempt int) (res Result) {
 	cur = &state{vals: vals, random: rnd, drawn: map[string]uint64{}}
 	defer func() {
 		if r := recover(); r != nil {
-			if _, ok := r.(assumeFailed); ok {
+			if gp, ok := r.(goroutinePanic); ok {
+				res.Panic = "in goroutine: " + fmt.Sprint(gp.v)
+				res.Stack = gp.stack
+			} else if dl, ok := r.(deadlockError); ok {
+				res.Panic = dl.msg
+				res.Deadlock = true
+			} else if _, ok := r.(assumeFailed); ok {
 				res.AssumeFailed = len(cur.failed) == 0
 			} else {
 				res.Panic = fmt.Sprint(r)
@@ -235,7 +250,16 @@ func Run(h func(), vals map[string]uint64, rnd *rand.Rand) (res Result) {
 		res.Observes = cur.observes
 		cur = nil
 	}()
-	h()
+	desync := false
+	func() {
+		defer func() {
+			if sch != nil {
+				desync = sch.desync
+			}
+		}()
+		runScheduled(h, schedule, maxPreempt)
+	}()
+	res.SchedDesync = desync
 	return
 }
 
@@ -280,13 +304,17 @@ func Main(t *testing.T, table map[string]func()) {
 		return
 	}
 	vals := map[string]uint64{}
+	var replaySched []int
+	replayMaxPre := 3
 	if file := os.Getenv("VERIF_REPLAY"); file != "" {
 		raw, err := os.ReadFile(file)
 		if err != nil {
 			t.Fatal(err)
 		}
 		var in struct {
-			Vals map[string]string `json:"vals"`
+			Vals       map[string]string `json:"vals"`
+			Sched      []int             `json:"sched"`
+			MaxPreempt int               `json:"max_preempt"`
 		}
 		if err := json.Unmarshal(raw, &in); err != nil {
 			t.Fatal(err)
@@ -298,8 +326,12 @@ func Main(t *testing.T, table map[string]func()) {
 			}
 			vals[k] = v
 		}
+		replaySched = in.Sched
+		if in.MaxPreempt > 0 {
+			replayMaxPre = in.MaxPreempt
+		}
 	}
-	r := Run(h, vals, nil)
+	r := RunSched(h, vals, nil, replaySched, replayMaxPre)
 	out, _ := json.Marshal(r)
 	fmt.Println("VERIF-RESULT", string(out))
 }
@@ -325,4 +357,406 @@ func Bound(quick, thorough int) int {
 		return thorough
 	}
 	return quick
+}
+
+// ---------------------------------------------------------------------------
+// Native cooperative scheduler (schedule replay).
+//
+// The symbolic executor interleaves goroutines at synchronisation operations
+// and records the thread chosen at every scheduling decision. For the native
+// replay the sources involved are rewritten (in a build overlay) so that the
+// same operations call the functions below; exactly one goroutine runs at a
+// time and the recorded choices are followed. Without a recorded schedule the
+// policy is "keep running; when blocked or finished continue with the lowest
+// thread id" — the executor uses the same policy in concrete mode.
+
+type nthread struct {
+	id        int
+	resume    chan struct{}
+	done      bool
+	blockedOn any
+}
+
+type nmutex struct {
+	writer  int
+	readers int
+}
+
+type nsched struct {
+	threads  []*nthread
+	cur      *nthread
+	choices  []int
+	next     int
+	preempts int
+	maxPre   int
+	mutexes  map[any]*nmutex
+	wgs      map[any]*int64
+	fatal    any
+	killed   bool
+	desync   bool
+	alive    sync.WaitGroup
+}
+
+type nkill struct{}
+
+var sch *nsched
+
+func newSched(choices []int, maxPre int) *nsched {
+	s := &nsched{choices: choices, maxPre: maxPre, mutexes: map[any]*nmutex{}, wgs: map[any]*int64{}}
+	main := &nthread{id: 0, resume: make(chan struct{}, 1)}
+	s.threads = []*nthread{main}
+	s.cur = main
+	return s
+}
+
+func (s *nsched) runnable() []*nthread {
+	var out []*nthread
+	if !s.cur.done && s.cur.blockedOn == nil {
+		out = append(out, s.cur)
+	}
+	for _, t := range s.threads {
+		if t != s.cur && !t.done && t.blockedOn == nil {
+			out = append(out, t)
+		}
+	}
+	return out
+}
+
+// pick makes one scheduling decision among rs (len > 1).
+func (s *nsched) pick(rs []*nthread) *nthread {
+	if s.next < len(s.choices) {
+		id := s.choices[s.next]
+		s.next++
+		for _, t := range rs {
+			if t.id == id {
+				return t
+			}
+		}
+		s.desync = true
+	}
+	return rs[0]
+}
+
+func (s *nsched) switchTo(t *nthread, park bool) {
+	me := s.cur
+	if t == me {
+		return
+	}
+	s.cur = t
+	t.resume <- struct{}{}
+	if !park {
+		return
+	}
+	<-me.resume
+	if s.killed {
+		panic(nkill{})
+	}
+	if s.fatal != nil && me.id == 0 {
+		f := s.fatal
+		s.fatal = nil
+		panic(f)
+	}
+}
+
+func (s *nsched) yield() {
+	if len(s.threads) <= 1 {
+		return
+	}
+	rs := s.runnable()
+	if len(rs) <= 1 || s.preempts >= s.maxPre {
+		return
+	}
+	t := s.pick(rs)
+	if t != s.cur {
+		s.preempts++
+		s.switchTo(t, true)
+	}
+}
+
+type deadlockError struct{ msg string }
+
+func (s *nsched) block(on any) {
+	me := s.cur
+	me.blockedOn = on
+	rs := s.runnable()
+	if len(rs) == 0 {
+		me.blockedOn = nil
+		panic(deadlockError{"deadlock: all goroutines blocked"})
+	}
+	t := rs[0]
+	if len(rs) > 1 {
+		t = s.pick(rs)
+	}
+	s.switchTo(t, true)
+}
+
+func (s *nsched) wake(on any) {
+	for _, t := range s.threads {
+		if t.blockedOn == on {
+			t.blockedOn = nil
+		}
+	}
+}
+
+func (s *nsched) toMain(r any) {
+	if s.fatal == nil {
+		s.fatal = r
+	}
+	main := s.threads[0]
+	s.cur = main
+	main.resume <- struct{}{}
+}
+
+func (s *nsched) exit(t *nthread) {
+	defer func() {
+		if r := recover(); r != nil {
+			s.toMain(r)
+		}
+	}()
+	s.wake(s)
+	rs := s.runnable()
+	if len(rs) == 0 {
+		all := true
+		for _, x := range s.threads {
+			if !x.done {
+				all = false
+			}
+		}
+		if !all {
+			s.toMain(deadlockError{"deadlock: all goroutines blocked"})
+		}
+		return
+	}
+	n := rs[0]
+	if len(rs) > 1 {
+		n = s.pick(rs)
+	}
+	s.switchTo(n, false)
+}
+
+func (s *nsched) pendingOthers() bool {
+	for _, t := range s.threads {
+		if t != s.cur && !t.done {
+			return true
+		}
+	}
+	return false
+}
+
+// goroutinePanic marks a panic that escaped a goroutine (it would crash the process).
+type goroutinePanic struct {
+	v     any
+	stack string
+}
+
+// Go replaces a go statement.
+func Go(f func()) {
+	if sch == nil {
+		go f()
+		return
+	}
+	s := sch
+	t := &nthread{id: len(s.threads), resume: make(chan struct{}, 1)}
+	s.threads = append(s.threads, t)
+	s.alive.Add(1)
+	go func() {
+		defer s.alive.Done()
+		<-t.resume
+		if s.killed {
+			return
+		}
+		defer func() {
+			r := recover()
+			if _, ok := r.(nkill); ok {
+				return
+			}
+			t.done = true
+			if r != nil {
+				if _, isAssume := r.(assumeFailed); !isAssume {
+					if _, isDl := r.(deadlockError); !isDl {
+						r = goroutinePanic{v: r, stack: string(debug.Stack())}
+					}
+				}
+				s.toMain(r)
+				return
+			}
+			s.exit(t)
+		}()
+		f()
+	}()
+	s.yield()
+}
+
+// SchedPoint is a scheduling point before a synchronisation operation.
+func SchedPoint() {
+	if sch != nil {
+		sch.yield()
+	}
+}
+
+func (s *nsched) mu(p any) *nmutex {
+	st := s.mutexes[p]
+	if st == nil {
+		st = &nmutex{}
+		s.mutexes[p] = st
+	}
+	return st
+}
+
+type locker interface {
+	Lock()
+	Unlock()
+	TryLock() bool
+}
+
+type rwlocker interface {
+	locker
+	RLock()
+	RUnlock()
+	TryRLock() bool
+}
+
+func MuLock(m locker) {
+	if sch == nil {
+		m.Lock()
+		return
+	}
+	s := sch
+	st := s.mu(m)
+	s.yield()
+	for st.writer != 0 || st.readers > 0 {
+		s.block(st)
+	}
+	st.writer = s.cur.id + 1
+	if !m.TryLock() {
+		panic("zzverifnd: scheduler model and real mutex disagree (Lock)")
+	}
+}
+
+func MuUnlock(m locker) {
+	if sch == nil {
+		m.Unlock()
+		return
+	}
+	s := sch
+	st := s.mu(m)
+	m.Unlock() // panics like the real thing when not locked
+	st.writer = 0
+	s.wake(st)
+	s.yield()
+}
+
+func MuTryLock(m locker) bool {
+	if sch == nil {
+		return m.TryLock()
+	}
+	s := sch
+	st := s.mu(m)
+	s.yield()
+	if st.writer != 0 || st.readers > 0 {
+		return false
+	}
+	st.writer = s.cur.id + 1
+	return m.TryLock()
+}
+
+func MuRLock(m rwlocker) {
+	if sch == nil {
+		m.RLock()
+		return
+	}
+	s := sch
+	st := s.mu(m)
+	s.yield()
+	for st.writer != 0 {
+		s.block(st)
+	}
+	st.readers++
+	if !m.TryRLock() {
+		panic("zzverifnd: scheduler model and real RWMutex disagree (RLock)")
+	}
+}
+
+func MuRUnlock(m rwlocker) {
+	if sch == nil {
+		m.RUnlock()
+		return
+	}
+	s := sch
+	st := s.mu(m)
+	m.RUnlock()
+	st.readers--
+	s.wake(st)
+	s.yield()
+}
+
+func WgAdd(wg *sync.WaitGroup, delta int) {
+	if sch == nil {
+		wg.Add(delta)
+		return
+	}
+	s := sch
+	n := s.wgs[wg]
+	if n == nil {
+		n = new(int64)
+		s.wgs[wg] = n
+	}
+	*n += int64(delta)
+	if *n < 0 {
+		panic("sync: negative WaitGroup counter")
+	}
+	if *n == 0 {
+		s.wake(n)
+	}
+	s.yield()
+}
+
+func WgWait(wg *sync.WaitGroup) {
+	if sch == nil {
+		wg.Wait()
+		return
+	}
+	s := sch
+	s.yield()
+	n := s.wgs[wg]
+	for n != nil && *n > 0 {
+		s.block(n)
+	}
+}
+
+func Sp0[R any](f func() R) R                     { SchedPoint(); return f() }
+func Sp1[A, R any](f func(A) R, a A) R            { SchedPoint(); return f(a) }
+func Sp2[A, B, R any](f func(A, B) R, a A, b B) R { SchedPoint(); return f(a, b) }
+func Sp3[A, B, C, R any](f func(A, B, C) R, a A, b B, c C) R {
+	SchedPoint()
+	return f(a, b, c)
+}
+func SpV0(f func())                                    { SchedPoint(); f() }
+func SpV1[A any](f func(A), a A)                       { SchedPoint(); f(a) }
+func SpV2[A, B any](f func(A, B), a A, b B)            { SchedPoint(); f(a, b) }
+func SpV3[A, B, C any](f func(A, B, C), a A, b B, c C) { SchedPoint(); f(a, b, c) }
+
+// runScheduled runs h as thread 0 under the cooperative scheduler and joins
+// every goroutine it started.
+func runScheduled(h func(), choices []int, maxPre int) {
+	s := newSched(choices, maxPre)
+	sch = s
+	defer func() {
+		// release parked goroutines so that they unwind
+		s.killed = true
+		for _, t := range s.threads[1:] {
+			if !t.done {
+				select {
+				case t.resume <- struct{}{}:
+				default:
+				}
+			}
+		}
+		s.alive.Wait()
+		sch = nil
+	}()
+	h()
+	for s.pendingOthers() {
+		s.block(s)
+	}
 }
